@@ -601,3 +601,11 @@ def run_case(case):
     if case["mode"] == "supported":
         return _run_supported(case)
     return _run_incompatible(case)
+
+
+def extra_engines(tier, seed):
+    """Thorough tier: the same generator/oracle driven by atheris
+    (coverage-guided) - see vp/fuzz_atheris.py."""
+    from .. import fuzz_atheris
+    return fuzz_atheris.extra(PROPERTY_ID, tier, seed, runs=120000,
+                              timeout=900)
